@@ -1137,3 +1137,99 @@ theorem multi_block_load (c : Codec) (bits : Nat) (hb : bits ≠ 1) (i : Nat) (l
   rw [hfold]
 
 end Wellen.Store
+
+namespace Wellen.Store
+open Wellen.Bits
+
+/-! ### reals and strings: one block end to end -/
+
+theorem encReals_length (cs : List (Nat × List Nat)) : cs.length ≤ (encReals cs).length := by
+  induction cs with
+  | nil => simp [encReals]
+  | cons c cs ih =>
+    have h1 : 1 ≤ (lebWrite c.1).length := by
+      cases h : lebWrite c.1 with
+      | nil => exact absurd h (lebWrite_ne_nil _)
+      | cons a r => simp
+    simp only [encReals, List.map_cons, List.flatten_cons, List.length_append, List.length_cons] at ih ⊢
+    omega
+
+theorem encStrings_length (cs : List (Nat × List Nat)) : cs.length ≤ (encStrings cs).length := by
+  induction cs with
+  | nil => simp [encStrings]
+  | cons c cs ih =>
+    have h1 : 1 ≤ (lebWrite c.1).length := by
+      cases h : lebWrite c.1 with
+      | nil => exact absurd h (lebWrite_ne_nil _)
+      | cons a r => simp
+    simp only [encStrings, List.map_cons, List.flatten_cons, List.length_append, List.length_cons] at ih ⊢
+    omega
+
+/-- the part of a one-block load that does not depend on the signal type: the loader is handed the signal's data with the
+block's index offset 0 and an empty accumulator (the compression decision does not matter) -/
+theorem single_block_reduce (c : Codec) (signals : Array SigEnc) (i : Nat) (s : SigEnc) (tt : List Nat) (t0 : Nat) (tpe : SigType)
+    (hs : signals.toList[i]? = some s) (hne : s.dataBytes ≠ []) (hlen : divCeil s.dataBytes.length 32 < 2 ^ 32) :
+    let r := finishSignals c signals
+    let b : Block := { startTime := t0, timeTable := tt, offsets := r.2.1, data := r.2.2 }
+    loadSignal { blocks := [b] } i tpe =
+      match (match tpe with
+             | .string => loadStrings (s.dataBytes.length + 1) s.dataBytes 0 {}
+             | .real => loadReals (s.dataBytes.length + 1) s.dataBytes 0 {}
+             | .bitvec bits => loadFixed bits s.maxStates (s.dataBytes.length + 1) s.dataBytes 0 {}) with
+      | none => none
+      | some a => some { maxStates := s.maxStates, times := a.timesRev.reverse, entries := a.entriesRev.reverse } := by
+  have hb := block_with_data c { signals := signals, tt := tt, t0 := t0 } i s hs hne hlen
+  obtain ⟨off, len, m, ho, hsl, hdec⟩ := hb
+  simp only [mkBlock] at ho hsl
+  simp only [loadSignal, loadStep, joinAll, collectMeta, collectMeta.go, ho, hsl, lebRead_lebWrite, hdec, List.reverse_cons,
+    List.reverse_nil, List.nil_append, List.map_cons, List.map_nil, List.foldl_cons, List.foldl_nil]
+  cases hco : compOf c s.dataBytes with
+  | none => rfl
+  | some n =>
+    have hn : ¬ n < s.dataBytes.length := by
+      unfold compOf at hco
+      split at hco
+      · cases hco
+      · split at hco
+        · cases hco
+          have := (meta_roundtrip_compressed s.maxStates s.dataBytes.length hlen).2
+          omega
+        · cases hco
+    simp only [hn, ↓reduceIte]
+    cases tpe <;> rfl
+
+theorem single_block_load_reals (c : Codec) (signals : Array SigEnc) (i : Nat) (s : SigEnc) (tt : List Nat) (t0 : Nat)
+    (cs : List (Nat × List Nat)) (hs : signals.toList[i]? = some s) (hdata : s.dataBytes = encReals cs) (hne : cs ≠ [])
+    (hcs : ∀ c ∈ cs, c.2.length = 8 ∧ c.1 < 2 ^ 32) (hlen : divCeil (encReals cs).length 32 < 2 ^ 32) :
+    let r := finishSignals c signals
+    let b : Block := { startTime := t0, timeTable := tt, offsets := r.2.1, data := r.2.2 }
+    loadSignal { blocks := [b] } i .real =
+      some { maxStates := s.maxStates, times := (replayPlain cs 0 {}).2.timesRev.reverse,
+             entries := (replayPlain cs 0 {}).2.entriesRev.reverse } := by
+  have hne' : s.dataBytes ≠ [] := by
+    rw [hdata]
+    cases cs with
+    | nil => exact absurd rfl hne
+    | cons c0 r => have := encReals_length (c0 :: r); intro h; rw [h] at this; simp at this
+  have hred := single_block_reduce c signals i s tt t0 .real hs hne' (by rw [hdata]; exact hlen)
+  simp only at hred ⊢
+  rw [hred, hdata, loadReals_stream cs hcs _ 0 {} (by have := encReals_length cs; omega)]
+
+theorem single_block_load_strings (c : Codec) (signals : Array SigEnc) (i : Nat) (s : SigEnc) (tt : List Nat) (t0 : Nat)
+    (cs : List (Nat × List Nat)) (hs : signals.toList[i]? = some s) (hdata : s.dataBytes = encStrings cs) (hne : cs ≠ [])
+    (hcs : ∀ c ∈ cs, c.1 < 2 ^ 32) (hlen : divCeil (encStrings cs).length 32 < 2 ^ 32) :
+    let r := finishSignals c signals
+    let b : Block := { startTime := t0, timeTable := tt, offsets := r.2.1, data := r.2.2 }
+    loadSignal { blocks := [b] } i .string =
+      some { maxStates := s.maxStates, times := (replayPlain cs 0 {}).2.timesRev.reverse,
+             entries := (replayPlain cs 0 {}).2.entriesRev.reverse } := by
+  have hne' : s.dataBytes ≠ [] := by
+    rw [hdata]
+    cases cs with
+    | nil => exact absurd rfl hne
+    | cons c0 r => have := encStrings_length (c0 :: r); intro h; rw [h] at this; simp at this
+  have hred := single_block_reduce c signals i s tt t0 .string hs hne' (by rw [hdata]; exact hlen)
+  simp only at hred ⊢
+  rw [hred, hdata, loadStrings_stream cs hcs _ 0 {} (by have := encStrings_length cs; omega)]
+
+end Wellen.Store
